@@ -31,8 +31,9 @@
    NOT PROVED (covered by the correspondence check only): the lexical step - that inserting blanks at a token boundary of
    an arbitrary line, or appending `# text`, leaves the typed token sequence produced by the regexes unchanged; it needs
    a context lemma for every regex of config.json (C16_full_partial keeps the statement).
-   KNOWN FINDINGS C16-K1 / C16-K2 (C16_sign_in_literal_refuted): the number syntax [-+]?[0-9]+ reads a sign written
-   directly in front of a digit into the literal, so `a-b` and `a - b` are different token sequences. *)
+   KNOWN FINDING C16-K2 (C16_sign_in_literal_refuted): the number syntax [-+]?[0-9]+ reads a sign written directly in
+   front of a digit into the literal, so `a+b` and `a + b` are different token sequences and a rule that starts at the
+   second operand is not found (C16-K1, date - duration, is repaired: /repo acb6397). *)
 From Coq Require Import Floats.
 From SC.Model Require Import Base Num NumF64 Types Config Case Chrono UiTokens Rx Match Post Parser Items Interp RuleFns
      Rules Format Lexer Api Run64.
@@ -274,14 +275,16 @@ Theorem C16_pipeline_tr :
   agree "tr" "50 + 10%" ["50+10%"; "  50  +  10%  # 5"].
 Proof. exact pipeline_tr. Qed.
 
-(* ---- known findings C16-K1 / C16-K2: a sign directly in front of a digit is read into the literal ---- *)
+(* ---- known finding C16-K2: a sign directly in front of a digit is read into the literal; the date - duration
+        consequence (was C16-K1) is repaired in /repo acb6397 and is a positive example here ---- *)
 Theorem C16_sign_in_literal_refuted :
-  values "en" "12 jul 1997-1 year" <> values "en" "12 jul 1997 - 1 year" /\
-  evaluates "en" "12 jul 1997-1 year" = true /\ evaluates "en" "12 jul 1997 - 1 year" = true /\
   values "en" "1600000000+60 to date" <> values "en" "1600000000 + 60 to date" /\
   evaluates "en" "1600000000+60 to date" = true /\
   values "en" "5+3 km" <> values "en" "5 + 3 km" /\ evaluates "en" "5+3 km" = true /\
   agree "en" "12 jul 1997-5 days" ["12 jul 1997 - 5 days"] /\ agree "en" "10 usd-5 usd" ["10 usd - 5 usd"] /\
+  agree "en" "12 jul 1997-1 year" ["12 jul 1997 - 1 year"; "12 jul 1997 + -1 year"] /\
+  agree "en" "12 jul 1997-1 month" ["12 jul 1997 - 1 month"] /\ agree "en" "5 jan 2020-1 month" ["5 jan 2020 - 1 month"] /\
+  agree "en" "3/4/1991-19 weeks" ["3 / 4 / 1991 - 19 weeks"] /\
   agree "en" "12:30-2 hours" ["12:30 - 2 hours"] /\ agree "en" "8-2*3" ["8 - 2 * 3"].
 Proof. exact sign_in_literal_refuted. Qed.
 
